@@ -2,9 +2,7 @@
 PROPERTY = "C17"
 LEVEL = "other"
 CONTRACT_MODULES = ["contracts.specfuns", "contracts.lemmas_desc", "contracts.pyramid", "contracts.image", "contracts.merge", "contracts.pyramidio", "contracts.study", "contracts.paths", "contracts.reuse", "contracts.fitstiler", "contracts.parallel", "contracts.multitan", "contracts.toastsample", "contracts.datarange", "contracts.builderc", "contracts.walk", "contracts.reducer", "contracts.lemmas_embed", "contracts.generator", "contracts.toastgeom", "contracts.toastgen", "contracts.multiwcs"]
-FUNCTIONS = ["toasty.pyramid.PyramidIO.tile_path", "toasty.builder.Builder.__init__", "toasty.study.StudyTiling.apply_to_imageset",
-             "toasty.fits_tiler.FitsTiler._load_index_wtml_into_builder", "toasty.fits_tiler.FitsTiler._tile_toast",
-             "toasty.builder.Builder.toast_base", "toasty.builder.Builder.cascade"]
+FUNCTIONS = ['toasty.pyramid.PyramidIO.tile_path', 'toasty.builder.Builder.__init__', 'toasty.study.StudyTiling.apply_to_imageset', 'toasty.fits_tiler.FitsTiler._load_index_wtml_into_builder', 'toasty.fits_tiler.FitsTiler._tile_toast', 'toasty.builder.Builder.toast_base', 'toasty.builder.Builder.cascade', 'toasty.study.StudyTiling.tile_image']
 LEMMAS = ["digits_then_separator_parse_uniquely"]
 SLOW = ()
 TRUSTED_BASE = ["pyvc VC generator; z3/cvc5 (cvc5 --strings-exp for the string lemma)",
